@@ -327,6 +327,12 @@ func c14History(c *vc.Ctx, idx int) {
 			p.SignedBlocksWindow = int64(6 + r.Intn(5))
 			p.MaxMissedPerWindow = int64(2 + r.Intn(3))
 			p.DowntimeJailDuration = time.Minute
+			switch idx % 7 {
+			case 5:
+				p.DowntimeJailDuration = 0 // no jail time at all: a lock in any later block may release
+			case 6:
+				p.DowntimeJailDuration = time.Nanosecond
+			}
 			if idx%4 == 1 {
 				p.SlashFractionDowntime = math.LegacyNewDecWithPrec(1, 18) // truncates to zero on small holdings: everything is slashed
 			}
